@@ -27,7 +27,8 @@ SCENARIO_TIMEOUT = 240
 PROBES = ["pred_chunk_lacks_fold", "one_row_last_chunk", "spectrum_split_across_conf_chunks",
           "spectrum_within_one_conf_chunk", "subsampled", "rowgroup_inside_chunk", "spill_files>=2",
           "switch_in_get_rows", "switch_in_save_chunks", "parquet", "workers>=8", "dedup_off", "rollup_off",
-          "multi_file", "order_sensitive_learner", "sklearn_learner", "merge_chunk_small", "protein_level"]
+          "multi_file", "order_sensitive_learner", "sklearn_learner", "merge_chunk_small", "protein_level",
+          "pep_files_compared_strictly", "pep_files_checked_for_shape_only"]
 RULE = (
     "Each scenario = one seeded tie-free data set + configuration (learner, folds, seeds, rollup/decoy/dedup "
     "switches) executed as reference (text, knobs > file, 1 worker, no threads) and as perturbed execution "
@@ -41,9 +42,11 @@ ASSUMPTIONS = [
     "continuous tie-free features; exact score ties (the calibration anchors 0 and -1 occur once per fold) may appear in any "
     "order in a result file and are ordered by identifier before comparison; a scenario whose reference scores tie "
     "between rows that compete (same spectrum or rollup entity) is discarded as uninformative",
-    "scores compared at rtol 1e-9, q-values at rtol 1e-6 (float32 FDR), PEPs at rtol 5e-2/atol 1e-5 (measured: triqler's "
-    "spline fit turns the 1-ulp score difference of pandas' non-round-trip text float parser into a 1.6e-2 relative PEP "
-    "difference), strings and row order (outside exact-tie groups) exactly",
+    "scores compared at rtol 1e-9, q-values at rtol 1e-6 (float32 FDR); PEPs at rtol 1e-6 only when every score of the "
+    "file is bit-identical in both executions, otherwise the PEP column must be within [0,1] and non-decreasing down the "
+    "file (measured: triqler's spline fit moved a PEP from 0.0795 to 0.0480 when 11 of 48 scores differed by 1 ulp, which "
+    "pandas' non-round-trip text float parser causes between the text and the Parquet path); strings and row order "
+    "(outside exact-tie groups) exactly",
     "short Parquet batches are not injected: the installed pyarrow's iter_batches spans row groups",
     "a reference execution that raises 'No PSMs found'/'calibration' errors makes the scenario uninformative only "
     "if the perturbed execution raises the same error type (error parity is still checked)",
@@ -112,6 +115,9 @@ def scenarios(tier, batch_seed):
 
 
 # ----------------------------------------------------------------- comparison
+STATS = {"pep_strict": 0, "pep_loose": 0}
+
+
 def _num(s):
     try:
         return float(s)
@@ -179,6 +185,39 @@ def compare_files(ref_files, got_files):
         if len(r1) != len(r2):
             return ("row_count", f"{name}: {len(r2)} rows, reference has {len(r1)}", {"level": level,
                     "more": len(r2) > len(r1)})
+        # PEPs: triqler's iterative spline fit is ill-conditioned - measured: 11 of 48 scores differing by 1 ulp
+        # (pandas' text float parser is not round-trip exact) moved a PEP from 0.0795 to 0.0480.  PEPs are therefore
+        # compared (rtol 1e-6) only when every score of the file is bit-identical in both executions; otherwise the
+        # perturbed PEP column must be well-formed: within [0, 1] and non-decreasing down the (best-first) file.
+        # PEPs of a level are estimated from ALL retained rows of that level (targets and decoys), so strictness is a
+        # property of the (prefix, level) pair and needs the decoy file to be visible
+        strict_pep = False
+        if "score" in h1 and ("targets." in name or "decoys." in name):
+            partner = name.replace("targets.", "decoys.") if "targets." in name else name.replace("decoys.", "targets.")
+            strict_pep = partner in ref_files
+            for nm in (name, partner):
+                if not strict_pep:
+                    break
+                ha, ra = P.parse_result_file(ref_files[nm])
+                hb, rb = P.parse_result_file(got_files[nm])
+                ra, rb = canonical_tie_order(ha, ra), canonical_tie_order(hb, rb)
+                sj = ha.index("score") if "score" in ha else None
+                if sj is None or ha != hb or len(ra) != len(rb) or any(
+                        len(a) <= sj or len(b) <= sj or a[sj] != b[sj] for a, b in zip(ra, rb)):
+                    strict_pep = False
+        if "posterior_error_prob" in h2:
+            pi = h2.index("posterior_error_prob")
+            prev = -1.0
+            for i, b in enumerate(r2):
+                v = _num(b[pi]) if len(b) > pi else None
+                if v is None or not (0.0 <= v <= 1.0):
+                    return ("cell", f"{name} row {i}: PEP {b[pi] if len(b) > pi else None!r} is not a probability",
+                            {"level": level, "column": "posterior_error_prob"})
+                if v < prev - 1e-9:
+                    return ("cell", f"{name} row {i}: PEP {v} decreases (previous row {prev}) although rows are ordered best "
+                            "first", {"level": level, "column": "posterior_error_prob"})
+                prev = v
+        STATS["pep_strict" if strict_pep else "pep_loose"] += 1
         for i, (a, b) in enumerate(zip(r1, r2)):
             if len(a) != len(b):
                 return ("row_shape", f"{name} row {i}: {len(b)} fields vs {len(a)}", {"level": level})
@@ -190,9 +229,7 @@ def compare_files(ref_files, got_files):
                     if c == "score":
                         ok = np.isclose(fx, fy, rtol=1e-9, atol=1e-12)
                     elif c == "posterior_error_prob":
-                        # triqler's iterative spline fit amplifies 1-ulp score differences (pandas' default
-                        # text float parser is not round-trip exact) to ~1e-2 relative on tiny PEPs
-                        ok = np.isclose(fx, fy, rtol=5e-2, atol=1e-5)
+                        ok = (not strict_pep) or np.isclose(fx, fy, rtol=1e-6, atol=1e-9)
                     else:
                         ok = np.isclose(fx, fy, rtol=1e-6, atol=1e-9)
                     if ok:
@@ -363,7 +400,10 @@ def run_scenario(scn, workdir):
             if not (np.allclose(w1, w2, rtol=1e-7, atol=1e-10) and np.allclose(b1, b2, rtol=1e-7, atol=1e-10)):
                 return viol("coefficients", f"model of fold {i + 1}: coefficients differ {w2} vs {w1}")
     # (iv) files
+    STATS.update(pep_strict=0, pep_loose=0)
     bad = compare_files(ref.files, got.files)
+    probes["pep_files_compared_strictly"] = STATS["pep_strict"]
+    probes["pep_files_checked_for_shape_only"] = STATS["pep_loose"]
     if bad is not None:
         clause, msg, sig = bad
         return viol(clause, msg, **sig)
